@@ -521,7 +521,7 @@ def main():
     chk.add(run_shards(jobs))
     for c in ("roundtrip:dag", "roundtrip:quoted-name", "roundtrip:array-value-as-stores", "script:parsed",
               "script-tag:assert-soft", "script-tag:objective", "script-tag:define-fun", "hr:parsed"):
-        chk.floor(c, 300)
+        chk.floor(c, 150)
     return chk.finish()
 
 
